@@ -556,6 +556,14 @@ def rule_odometer(ctx, M, fn, pr, store_fns=None):
                 pj = pl["proj"]
                 if pl["l"] == 1 and len(pj) == 2 and pj[0] == "deref" and isinstance(pj[1], dict) and pj[1].get("f") in pos_fields:
                     pos_stores.append(sb)
+        # a deal advances either one player's counter or the position, never both
+        for (f3, ib, _x) in inc_sites:
+            if f3 is sf:
+                r2_ = I.reachable_avoiding(sf, [], start=ib)
+                if any(sb in r2_ for sb in pos_stores) or any(w_ in r2_ for w_ in whole):
+                    order_problems.append("after a player's counter is advanced the (turn, river) position is advanced or all counters "
+                                          "are reset in the same deal: the remaining combos of that board are skipped")
+                    break
         for sb in pos_stores:
             r_ = I.reachable_avoiding(sf, [], start=sb, removed_blocks=whole)
             dominated = any(sf.cfg.dominates(w_, sb) for w_ in whole)   # `fill(0)` written before the position update
